@@ -84,6 +84,8 @@ RoutePV(r, a, p) == IF r.sets = <<>> THEN {"Y"} ELSE AnyPV(r.sets, a, p)
 (*                               the first of them at stream position pos  *)
 (*          [e |-> "HRead", segs] a handler read these stream positions    *)
 (*          [e |-> "HErr"]       a handler returned an error               *)
+(*          [e |-> "Tee"]        a tee handler starts its branch           *)
+(*          [e |-> "Branch", segs]  everything a tee branch read           *)
 (*          [e |-> "Term", l, r] a terminal handler consumed the conn      *)
 (*          [e |-> "Enter", l, vis]  a subroute handler starts list l      *)
 (*          [e |-> "Fallback", l, vis]  the fallback of list l invoked     *)
@@ -112,7 +114,7 @@ R3(cf, h) == \A k \in 1..Len(h) : Is(h[k], "Handle") =>
 
 \* R4 / R6: after a terminal handler, an abort or a handler error nothing else runs
 Final(ev) == Is(ev, "Term") \/ Is(ev, "Abort") \/ Is(ev, "HErr")
-R4(cf, h) == \A k \in 1..Len(h) : Final(h[k]) => \A j \in (k+1)..Len(h) : Is(h[j], "Return")
+R4(cf, h) == \A k \in 1..Len(h) : Final(h[k]) => \A j \in (k+1)..Len(h) : Is(h[j], "Return") \/ Is(h[j], "Branch")
 
 \* R5a: the fallback runs at most once per list, and only when every remaining route
 \*      may be decided as not matching on the visible bytes
@@ -139,6 +141,23 @@ AllReads(h) == IF h = <<>> THEN <<>>
                ELSE AllReads(Tail(h))
 R7(cf, h) == Contig(AllReads(h), 0)
 
+\* R8: a tee branch reads exactly what the handlers after the tee read (same bytes, same order)
+\*     [e |-> "Tee"] marks the tee handler, [e |-> "Branch", segs] what its branch read in all
+ReadsAfter(h, k) == AllReads(SubSeq(h, k + 1, Len(h)))
+FirstTee(h) == LET S == { k \in 1..Len(h) : Is(h[k], "Tee") } IN
+               IF S = {} THEN 0 ELSE CHOOSE x \in S : \A y \in S : x <= y
+\* the run drained the connection: a terminal handler or the top-level fallback read it to its end
+Drained(h) == \E k \in 1..Len(h) : Is(h[k], "Term") \/ (Is(h[k], "Fallback") /\ h[k].l = 1)
+R8(cf, h) == \A b \in 1..Len(h) : Is(h[b], "Branch") =>
+               /\ FirstTee(h) # 0
+               /\ LET main == AppendAll(<<>>, ReadsAfter(SubSeq(h, 1, b), FirstTee(h)))
+                      br   == AppendAll(<<>>, h[b].segs) IN
+                  \* the branch may be ahead of the recorded reads (bytes fetched for matching or by a
+                  \* handler's own read-ahead pass the tee when they are fetched), never behind, never different
+                  IF Drained(h) THEN br = main
+                  ELSE /\ Len(br) <= 1 /\ Len(main) <= 1
+                       /\ (main # <<>>) => (br # <<>> /\ br[1][1] = main[1][1] /\ br[1][2] >= main[1][2])
+
 \* D1: bytes are pulled for matching only under an armed deadline
 \* D2: the handlers of a matched route run with the deadline cleared (C05: "once a route has
 \*     matched the deadline no longer limits its handlers").  Deliberately NOT required of the
@@ -150,8 +169,9 @@ R7(cf, h) == Contig(AllReads(h), 0)
 LastDl(h, k) == LET S == { j \in 1..(k-1) : Is(h[j], "Dl") } IN
                 IF S = {} THEN -1 ELSE h[MaxOf(S, 0)].l
 D1(cf, h) == \A k \in 1..Len(h) : (Is(h[k], "Pull") \/ Is(h[k], "Sock")) => LastDl(h, k) > 0
+AfterTopFallback(h, k) == \E j \in 1..(k-1) : Is(h[j], "Fallback") /\ h[j].l = 1
 D2(cf, h) == \A k \in 1..Len(h) :
-               (Is(h[k], "Handle") \/ Is(h[k], "HRead") \/ Is(h[k], "Term"))
+               ((Is(h[k], "Handle") \/ Is(h[k], "HRead") \/ Is(h[k], "Term")) /\ ~AfterTopFallback(h, k))
                   => LastDl(h, k) = 0
 RECURSIVE SumPull(_)
 SumPull(h) == IF h = <<>> THEN 0
@@ -183,6 +203,7 @@ Violations(cf, h, limit, chunk) ==
   \cup (IF R5b(cf, h) THEN {} ELSE {"R5b returned without terminal handler, abort or fallback"})
   \cup (IF R5c(cf, h) THEN {} ELSE {"R5c sub list ran without being entered"})
   \cup (IF R7(cf, h) THEN {} ELSE {"R7 handlers did not read the stream exactly once in order"})
+  \cup (IF R8(cf, h) THEN {} ELSE {"R8 a tee branch did not read what the handlers after the tee read"})
   \cup (IF D1(cf, h) THEN {} ELSE {"D1 matching pulled bytes without an armed deadline"})
   \cup (IF D2(cf, h) THEN {} ELSE {"D2 handler of a matched route ran with the matching deadline armed"})
   \cup (IF D3(cf, h, limit) THEN {} ELSE {"D3 matching abandoned without cause"})
